@@ -117,7 +117,7 @@ pub fn dump_items<'tcx>(tcx: TyCtxt<'tcx>) -> J {
             if let Some(tr) = tcx.impl_opt_trait_ref(imp) {
                 let tr = tr.instantiate_identity().skip_norm_wip();
                 o.push(("impl_trait", J::s(full_path(tcx, tr.def_id))));
-                o.push(("impl_trait_ref", J::s(with_no_trimmed_paths!(format!("{}", tr)))));
+                o.push(("impl_trait_ref", J::s(crate::mir_dump::qualify(rustc_middle::ty::print::with_crate_prefix!(with_no_trimmed_paths!(format!("{}", tr)))))));
             }
             if let Some(ti) = tcx.trait_item_of(did) {
                 o.push(("trait_item", J::s(full_path(tcx, ti))));
@@ -127,7 +127,7 @@ pub fn dump_items<'tcx>(tcx: TyCtxt<'tcx>) -> J {
             o.push(("in_trait", J::s(full_path(tcx, tr))));
         }
         let sig = tcx.fn_sig(did).instantiate_identity().skip_norm_wip();
-        o.push(("sig", J::s(with_no_trimmed_paths!(format!("{}", sig)))));
+        o.push(("sig", J::s(crate::mir_dump::qualify(rustc_middle::ty::print::with_crate_prefix!(with_no_trimmed_paths!(format!("{}", sig)))))));
         fns.push((full_path(tcx, did), J::Obj(o)));
     }
 
